@@ -367,7 +367,7 @@ func (g *G) varyValue() string {
 	case 4:
 		return "User-Agent"
 	case 5:
-		return "X-Custom, X-Other"
+		return g.pick("X-Custom, X-Other", "X-Custom, X-Other", "X-Custom-Id", "X-Custom-Id, X-Custom")
 	case 6:
 		return "Accept-Encoding, *"
 	default:
@@ -524,6 +524,9 @@ var nearMisses = []string{
 	"http://a.test//x", "http://a.test/..//x", "http://a.test/.//x", "http://a.test///x", "http://a.test/x/..//x", "http://a.test/x//",
 	// a query is not validated by net/url: incomplete and non-hex escapes reach the key function as they are
 	"http://a.test/x?d=5%2", "http://a.test/x?d=%", "http://a.test/x?d=%zz&e=%4", "http://a.test/x?%",
+	// ... and URIs that differ only inside such an escape, or from the well-formed escape a lenient reader would see
+	"http://a.test/x?id=%4z", "http://a.test/x?id=%40", "http://a.test/x?d=10%&x=1", "http://a.test/x?d=10%&y=1",
+	"http://a.test/x?d=%zz", "http://a.test/x?d=%yy", "http://a.test/x?d=%00",
 }
 
 func (g *G) urlFor(res int, respell bool) string {
@@ -587,7 +590,7 @@ func (g *G) genCase(p *Profile, id string) *Case {
 			rq.Hdrs = append(rq.Hdrs, g.ccHeader(p, g.reqDirectives(p)))
 		}
 		if g.chance(p.PRange) {
-			rq.Hdrs = append(rq.Hdrs, Hdr{"Range", []string{"bytes=0-1"}})
+			rq.Hdrs = append(rq.Hdrs, Hdr{"Range", []string{g.pick("bytes=0-1", "bytes=0-1", "bytes=2-", "items=0-1", "Bytes=0-2", " bytes=0-2", "bytes", "bytes=0-1, 4-5")}})
 		}
 		if g.chance(p.PClientCond) {
 			if g.chance(0.6) {
@@ -598,10 +601,17 @@ func (g *G) genCase(p *Profile, id string) *Case {
 		}
 		if g.chance(p.PAdvVary) {
 			// values that look like other names and values glued together
-			rq.Hdrs = append(rq.Hdrs[:0:0], Hdr{"X-Custom", []string{g.pick("1", "1X-Other2", "aAccept-Encodinggzip", "b")}},
+			rq.Hdrs = append(rq.Hdrs[:0:0], Hdr{"X-Custom", []string{g.pick("1", "1X-Other2", "aAccept-Encodinggzip", "b", "-Id42")}},
 				Hdr{"X-Other", []string{g.pick("2", "", "b")}})
 			if g.chance(0.5) {
 				rq.Hdrs = rq.Hdrs[:1]
+			}
+			if g.chance(0.4) {
+				// a field whose name extends another's, with values that complete the shorter name
+				rq.Hdrs = append(rq.Hdrs, Hdr{"X-Custom-Id", []string{g.pick("42", "-Id42", "1")}})
+				if g.chance(0.5) {
+					rq.Hdrs = rq.Hdrs[len(rq.Hdrs)-1:]
+				}
 			}
 		}
 		c.Reqs = append(c.Reqs, rq)
@@ -645,6 +655,7 @@ func init() {
 		p.PUnsafe, p.PReqCC, p.PVary, p.PNoCache, p.PMustReval = 0.02, 0.5, 0.1, 0.3, 0.4
 		p.PValidators, p.PSWR, p.PSIE, p.PErrReply, p.POnlyIfCached, p.URLs = 0.75, 0.3, 0.3, 0.2, 0.15, 1
 		p.PSpelling, p.PLocation, p.PConnHdr, p.PRange = 0.1, 0.0, 0.0, 0.0
+		p.PClientCond = 0.12
 	})
 	profiles["spell"] = derive("spell", func(p *Profile) {
 		p.NReq = [2]int{3, 6}
@@ -699,7 +710,7 @@ func init() {
 	})
 	profiles["urls"] = derive("urls", func(p *Profile) {
 		p.NReq = [2]int{5, 10}
-		p.URLs, p.PSpelling, p.PVary, p.PUnsafe, p.PReqCC = 33, 0.5, 0.0, 0.0, 0.0
+		p.URLs, p.PSpelling, p.PVary, p.PUnsafe, p.PReqCC = 4+len(nearMisses), 0.5, 0.0, 0.0, 0.0
 		p.PNoCache, p.PMustReval, p.PSWR, p.PSIE, p.PErrReply, p.PHeuristic = 0, 0, 0, 0, 0, 0
 		p.PLocation, p.PConnHdr, p.PRange, p.PDate, p.PAge = 0, 0, 0, 0, 0
 		p.Statuses = []int{200}
@@ -872,6 +883,38 @@ func (g *G) genTwoMatchCase(p *Profile, id string) *Case {
 	return c
 }
 
+// genGluedVaryCase (C04): the Vary field set of a resource changes from a field to one whose name extends it
+// (or the other way round), and the request values are chosen so that name and value glued together coincide:
+// ("X-Custom", "-Id42") and ("X-Custom-Id", "42").  Whatever a cache derives from name and value must keep them apart.
+func (g *G) genGluedVaryCase(p *Profile, id string) *Case {
+	c := &Case{ID: id, Stream: "M", SWRTimeout: 0}
+	res := g.intn(2)
+	short, long := "X-Custom", "X-Custom-Id"
+	v := g.pick("42", "1", "x")
+	glued := strings.TrimPrefix(long, short) + v // the value that completes the shorter name
+	get := func(h ...Hdr) Req {
+		return Req{Gap: g.pickD(time.Second, 2*time.Second), Method: "GET", URL: g.urlFor(res, g.chance(0.2)), Hdrs: h}
+	}
+	first, second := Hdr{short, []string{glued}}, Hdr{long, []string{v}}
+	varyFirst, varySecond := short, long
+	probe := Hdr{long, []string{glued}}
+	if g.chance(0.4) {
+		first, second = second, first
+		varyFirst, varySecond = long, short
+		probe = Hdr{short, []string{v}}
+	}
+	c.Reqs = []Req{get(first), get(second), get(probe), get(second), get(first)}
+	for i := 0; i < 9; i++ {
+		vy := varyFirst
+		if i >= 1 {
+			vy = varySecond
+		}
+		r := tRep(i, 200, "max-age=3600", Hdr{"Vary", []string{vy}})
+		c.Script = append(c.Script, ScriptEntry{Plain: r, Cond: r})
+	}
+	return c
+}
+
 // genFor: the generator of case number i of a profile (targeted shapes are mixed into some profiles)
 func (g *G) genFor(p *Profile, id string, i int) *Case {
 	g.noVaryCC = p.Name == "spell"
@@ -882,6 +925,8 @@ func (g *G) genFor(p *Profile, id string, i int) *Case {
 		return g.genLateRevalCase(p, id)
 	case (p.Name == "hit" || p.Name == "vary") && i%10 == 5:
 		return g.genTwoMatchCase(p, id)
+	case p.Name == "vary" && i%20 == 7:
+		return g.genGluedVaryCase(p, id)
 	}
 	return g.genCase(p, id)
 }
